@@ -204,14 +204,14 @@ def dropVsCompactionSchedule : List Act :=
    .txnPinned (0,0) .ro 0, .unpin (0,0) 3, .bound (0,0), .pin (0,3), .txnPinned (0,3) .rw 0,
    .commitBegin (0,3), .commitA (0,3), .append (0,3), .committed (0,3), .unpin (0,3) 3,
    .cmdDone (0,0), .cmdBegin (0,0) (.delete 1 .all 0), .pin (0,0), .txnPinned (0,0) .ro 0,
-   .unpin (0,0) 4, .bound (0,0), .pin (0,4), .txnPinned (0,4) .ro 0, .pin (0,5),
-   .txnPinned (0,5) .upd 0, .unpin (0,4) 4, .txnLocked (0,5), .commitBegin (0,5), .commitA (0,5),
-   .append (0,5), .committed (0,5), .unpin (0,5) 4, .cmdDone (0,0), .cmdBegin (1,0) .compact,
-   .cmdBegin (2,0) (.drop 1), .pin (1,0), .cpPinned (1,0), .cpTable (1,0) 0, .cpLocked (1,0) 0,
-   .commitBegin (1,0), .pin (2,0), .txnPinned (2,0) .ro 0, .unpin (2,0) 5, .bound (2,0),
-   .dropApplied (2,1), .pin (2,1), .commitBegin (2,1), .commitA (2,1), .append (2,1),
-   .committed (2,1), .unpin (2,1) 5, .cmdDone (2,0), .commitA (1,0), .append (1,0),
-   .committed (1,0), .cpEnd (1,0), .unpin (1,0) 5, .cmdDone (1,0)]
+   .unpin (0,0) 4, .bound (0,0), .pin (0,4), .txnPinned (0,4) .ro 0, .lockBegin (0,5),
+   .unpin (0,4) 4, .pin (0,5), .txnPinned (0,5) .upd 0, .txnLocked (0,5), .commitBegin (0,5),
+   .commitA (0,5), .append (0,5), .committed (0,5), .unpin (0,5) 4, .cmdDone (0,0),
+   .cmdBegin (1,0) .compact, .cmdBegin (2,0) (.drop 1), .cpPinned (1,0), .cpTable (1,0) 0,
+   .pin (1,0), .cpLocked (1,0) 0, .commitBegin (1,0), .pin (2,0), .txnPinned (2,0) .ro 0,
+   .unpin (2,0) 5, .bound (2,0), .dropApplied (2,1), .commitA (1,0), .append (1,0),
+   .committed (1,0), .unpin (1,0) 5, .cpEnd (1,0), .cmdDone (1,0), .pin (2,1), .commitBegin (2,1),
+   .commitA (2,1), .append (2,1), .committed (2,1), .unpin (2,1) 6, .cmdDone (2,0)]
 
 /-- `INSERT INTO t1` has pinned and written its row-set; `DROP TABLE t1` commits; the INSERT
 commits afterwards. -/
@@ -253,7 +253,7 @@ theorem drop_vs_compaction_regression :
     (run init dropVsCompactionSchedule).isSome = true ∧ panicked dropVsCompactionSchedule = false
     ∧ (stateOf dropVsCompactionSchedule).tables = []
     ∧ ((stateOf dropVsCompactionSchedule).k.status (stateOf dropVsCompactionSchedule).k.epoch).rs = []
-    ∧ (resultsOf dropVsCompactionSchedule).filter (fun r => r.1 != 0) = [(2, true), (1, true)] := by
+    ∧ (resultsOf dropVsCompactionSchedule).filter (fun r => r.1 != 0) = [(1, true), (2, true)] := by
   decide
 
 /-- The INSERT is acknowledged after the DROP: its row-set is in the current snapshot (and in
@@ -279,19 +279,19 @@ def dropDvVsCompactionSchedule : List Act :=
    .txnPinned (0,0) .ro 0, .unpin (0,0) 3, .bound (0,0), .pin (0,3), .txnPinned (0,3) .rw 0,
    .commitBegin (0,3), .commitA (0,3), .append (0,3), .committed (0,3), .unpin (0,3) 3,
    .cmdDone (0,0), .cmdBegin (0,0) (.delete 1 .lt 3), .pin (0,0), .txnPinned (0,0) .ro 0,
-   .unpin (0,0) 4, .bound (0,0), .pin (0,4), .txnPinned (0,4) .ro 0, .pin (0,5),
-   .txnPinned (0,5) .upd 0, .unpin (0,4) 4, .txnLocked (0,5), .commitBegin (0,5), .commitA (0,5),
-   .append (0,5), .committed (0,5), .unpin (0,5) 4, .cmdDone (0,0), .cmdBegin (1,0) (.drop 1),
-   .cmdBegin (2,0) .compact, .pin (2,0), .cpPinned (2,0), .pin (1,0), .txnPinned (1,0) .ro 0,
-   .unpin (1,0) 5, .bound (1,0), .dropApplied (1,1), .pin (1,1), .commitBegin (1,1),
-   .cpTable (2,0) 0, .cpLocked (2,0) 0, .commitBegin (2,0), .commitA (2,0), .append (2,0),
-   .committed (2,0), .cpEnd (2,0), .unpin (2,0) 5, .cmdDone (2,0), .commitA (1,1), .append (1,1),
-   .committed (1,1), .unpin (1,1) 5, .cmdDone (1,0)]
+   .unpin (0,0) 4, .bound (0,0), .pin (0,4), .txnPinned (0,4) .ro 0, .lockBegin (0,5),
+   .unpin (0,4) 4, .pin (0,5), .txnPinned (0,5) .upd 0, .txnLocked (0,5), .commitBegin (0,5),
+   .commitA (0,5), .append (0,5), .committed (0,5), .unpin (0,5) 4, .cmdDone (0,0),
+   .cmdBegin (1,0) (.drop 1), .cmdBegin (2,0) .compact, .cpPinned (2,0), .pin (1,0),
+   .txnPinned (1,0) .ro 0, .unpin (1,0) 5, .bound (1,0), .dropApplied (1,1), .pin (1,1),
+   .commitBegin (1,1), .cpTable (2,0) 0, .cpEnd (2,0), .cmdDone (2,0), .commitA (1,1),
+   .append (1,1), .committed (1,1), .unpin (1,1) 5, .cmdDone (1,0)]
 
-/-- The DROP's phase A now treats the `DeleteDV` / `DeleteRowSet` of what the compaction already
-removed as no-ops: no panic, `DROP TABLE` is acknowledged and logged.  What remains is the OTHER
-mechanism (`sched:drop-vs-compaction-orphan-rowset`): the row-set the compaction added after the
-DROP pinned is not in the DROP's changeset and stays in the snapshot of a table that is gone. -/
+/-- Since /repo 504f23d DROP TABLE holds the table's deletion lock while it pins, builds its
+changeset and commits: the compaction that had started before cannot lock the table until the DROP
+is done, then pins a snapshot without the table and does nothing.  No panic, the DROP is logged,
+nothing of the table is left in the snapshot (the orphan row-set of
+`sched:drop-vs-compaction-orphan-rowset` is gone too). -/
 theorem drop_dv_vs_compaction_regression :
     (run init dropDvVsCompactionSchedule).isSome = true
     ∧ panicked dropDvVsCompactionSchedule = false
@@ -300,7 +300,7 @@ theorem drop_dv_vs_compaction_regression :
         | .drop _ => true
         | _ => false)).length = 1
     ∧ ((stateOf dropDvVsCompactionSchedule).k.status (stateOf dropDvVsCompactionSchedule).k.epoch).rs
-        = [(0, 2)] := by
+        = [] := by
   decide
 
 /-- Two sessions `DROP TABLE t1`: both bound before either applies; the second one's executors
@@ -314,19 +314,25 @@ def dropDropSchedule : List Act :=
    .pin (1,0), .txnPinned (1,0) .ro 0, .unpin (1,0) 3, .bound (1,0), .pin (2,0),
    .txnPinned (2,0) .ro 0, .unpin (2,0) 3, .bound (2,0), .dropApplied (1,1), .pin (1,1),
    .commitBegin (1,1), .commitA (1,1), .append (1,1), .committed (1,1), .unpin (1,1) 3,
-   .cmdDone (1,0), .panic (2,0), .cmdDone (2,0)]
+   .cmdDone (1,0), .cmdDone (2,0)]
 
-/-- `executor::Builder::new` unwraps the catalog entry of a table that a concurrent session
-dropped after this statement was bound: the session panics. -/
-theorem drop_drop_bound_panic_witness :
-    (run init dropDropSchedule).isSome = true ∧ panicked dropDropSchedule = true := by
+/-- REGRESSION (was `sched:drop-vs-bound-statement-panic`, fixed in /repo 25ba285): the second
+`DROP TABLE t1` fails with "table not found" — no panic, one DropTable record. -/
+theorem drop_drop_regression :
+    (run init dropDropSchedule).isSome = true ∧ panicked dropDropSchedule = false
+    ∧ (resultsOf dropDropSchedule).filter (fun r => r.1 != 0) = [(1, true), (2, false)]
+    ∧ (((stateOf dropDropSchedule).k.log.flatMap id).filter (fun o => match o with
+        | .drop _ => true
+        | _ => false)).length = 1 := by
   decide
 
-/-- "No session or background pass panics" is false without the restriction. -/
-theorem no_panic_unrestricted_false :
-    ¬ (∀ acts : List Act, (run init acts).isSome = true → panicked acts = false) := by
-  intro h
-  exact absurd (h dropDropSchedule (by decide)) (by decide)
+/-- No modelled panic site is reachable any more: the `panic` segment is never enabled, in any
+state (phase A cannot panic since /repo 6efcfe7, building the executors of a statement whose
+table was dropped since /repo 25ba285). -/
+theorem panic_never_enabled (s : Sys) (th : Tid) : astep s (.panic th) = none := by
+  simp only [astep, stepPanic, commitA_never_panics]
+  split <;> rfl
+
 
 /-! ### whole-run serializability of the restricted fragment
 
